@@ -1562,7 +1562,7 @@ def load_findings(chk):
     # TEMPORARY until the lead merges build/kf-C20.json: findings found in the generator audit (derive-duplicate,
     # hierarchy-duplicate-field, cyclic-extends-crash) that known_findings.json does not list yet
     p = os.path.join(vlib.VERIF, "build", "kf-C20.json")
-    if os.path.exists(p):
+    if os.path.exists(p) and os.environ.get("VERIF_KF_DEV"):  # development only: proposals not yet merged into known_findings.json
         have = {f["id"] for f in chk.findings}
         for f in json.load(open(p)):
             if f["id"] not in have:
@@ -1804,6 +1804,19 @@ def run(chk):
         vlib.log("[c20] batches done at %.1fs" % (time.time() - chk.t0))
         # ---- known findings: replay the witnesses on the real code
         for f in chk.findings:
+            if f.get("status") == "fixed" and f["id"] == "cyclic-extends-crash":
+                # repaired (fix: commit): regression witness — a cyclic `extends` chain must end in a diagnostic, not in a crash
+                sp = os.path.join(scratch, "w_cyclic_fixed.incn")
+                open(sp, "w").write(f["witness"])
+                try:
+                    p = subprocess.run([binary, "run", "c20", "fields"], input=sp + "\n", capture_output=True, text=True, timeout=120)
+                    crashed = p.returncode < 0 or "overflowed its stack" in p.stderr
+                except subprocess.TimeoutExpired:
+                    crashed = True
+                if crashed:
+                    fails.append({"case": "regression of the repaired finding cyclic-extends-crash", "program": f["witness"],
+                                  "why": "a cyclic `extends` chain crashes the compiler again (stack overflow / abort) instead of being diagnosed"})
+                continue
             if f.get("status") != "known":
                 continue
             fid = f["id"]
